@@ -552,7 +552,9 @@ def check_c18(tier, seed):
     # model validation: fault-free histories again with the uninstrumented binary on a real directory
     mv = {"histories": 0, "steps": 0, "mismatches": []}
     clean = [(h, rec) for h, rec in recs if not any(v[0]["id"] == h["id"] for v in viols)]
-    for h, rec in clean[: (80 if tier == "quick" else 400)]:
+    for h, rec in (clean if not viols else []):  # model validation presupposes a tree on which the check passes
+        if mv["histories"] >= (40 if tier == "quick" else 300):
+            break
         m = c18.real_replay(sc, acv_plain, ex, h, rec)
         if m is None:
             continue
@@ -680,9 +682,22 @@ def check_c11(tier, seed):
                 chosen, best = cand, ok
                 if ok == attempts:
                     break
+        prefix = None
+        if chosen is None:
+            # not reproducible from the cell alone: state kept at process level? Re-execute the cells that ran
+            # before it in the same process (same shard), from their seeds
+            ok = 0
+            for _ in range(2):
+                rr = c11.run_prefix(sc, testbin, job, r["shard"], r["nshard"], r["idx"])
+                if rr and any(("%s:%s:%s" % (cls, sd, rr["cell"]["failure"]["id"])) == sig for cls, sd, _ in c11.judge(rr, ff.get(rr["cell"]["entry"]), sc.census["operations"], None)):
+                    ok += 1
+            if ok == 2 or (flaky_ok and ok >= 1):
+                chosen, best, attempts = cell, ok, 2
+                prefix = {"seed": seed, "k": job["k"], "shard": r["shard"], "nshard": r["nshard"], "idx": r["idx"],
+                          "note": "the violation needs the %d cells executed earlier in the same process; they are re-executed from their seeds" % (r["idx"] // r["nshard"])}
         if chosen is None:
             raise HarnessError("C11 violation %s does not replay from its recorded decisions" % sig)
-        rf = {"property": "C11", "engine": "B-bubble", "seed": seed, "tree": sc.tree_hash, "cell": chosen, "violation": {"class": sig.split(":")[0], "sig": sig, "detail": text},
+        rf = {"property": "C11", "engine": "B-bubble", "seed": seed, "tree": sc.tree_hash, "cell": chosen, "prefix": prefix, "violation": {"class": sig.split(":")[0], "sig": sig, "detail": text},
               "events": r["events"], "returned": r.get("returned"), "replays": {"attempts": attempts, "recurred": best,
               "note": "select statements in repo code: Go's random choice among ready cases is not owned by the simulator" if flaky_ok else "exact"}}
         path = os.path.join(rdir, "C11-%s.json" % hashlib.sha256(sig.encode()).hexdigest()[:10])
@@ -808,7 +823,7 @@ def mutants(args):
             if suite:
                 p = vlib.sh([vlib.GO, "test", "-vet=off", "-count=1", "-timeout", "25m", "./..."], cwd=wt, check=False, timeout=3000)
                 entry["repo_test_suite"] = "pass" if p.returncode == 0 else "FAIL"
-            env = dict(os.environ, VERIF_REPO=wt)
+            env = dict(os.environ, VERIF_REPO=wt, VERIF_EVIDENCE_DIR=vlib.out_dir("mutant-evidence"))
             t0 = time.time()
             p = subprocess.run([os.path.join(vlib.VERIF, "check"), prop, "quick"], env=env, capture_output=True, text=True)
             entry["rc"] = p.returncode
